@@ -37,14 +37,16 @@ class C14(SweepProp):
                     'require_probes': ['c14.grid_checked',
                                        'c14.closed_form_checked',
                                        'c14.grid_on_plane_world',
-                                       'c14.step_twin'],
+                                       'c14.step_twin',
+                                       'c14.reclone_checked'],
                     'min_evaluated': 80}
         return {'runs': 40000, 'wall_s': 1000, 'per_run_timeout': 600,
                 'shrink_s': 300,
                 'require_probes': ['c14.grid_checked',
                                    'c14.closed_form_checked',
                                    'c14.grid_on_plane_world',
-                                   'c14.step_twin', 'c14.dyadic_world'],
+                                   'c14.step_twin', 'c14.dyadic_world',
+                                   'c14.reclone_checked'],
                 'min_evaluated': 1500}
 
     def extend_case(self, case, S, tier):
@@ -90,6 +92,46 @@ class C14(SweepProp):
             res['probes']['c14.dyadic_world'] = 1
         if not spec.get('const') or res['violations']:
             return
+        # history independence of the loss coefficient: the same design at
+        # another flow rate, cloned from an assembly that has already been
+        # set up and swept (what a flow study or an orificing-type loop does
+        # through the public clone()), then set up the way Reactor sets up
+        # every assembly: the coefficient in use is the correlation at the
+        # clone's own Reynolds number (or the value given in the input)
+        for a in e.r.assemblies:
+            rg0 = getattr(a, 'rodded', None) if a.has_rodded else None
+            if rg0 is None or 'grid' not in rg0.corr_constants:
+                continue
+            tsp = [t for t in spec['types'] if t['name'] == a.name]
+            sp = tsp[0].get('spacer') if tsp else None
+            try:
+                c = a.clone(a.loc, new_flowrate=float(a.flow_rate)
+                            * case['twin_factor'])
+                t_avg = (float(e.r.inlet_temp)
+                         + float(a._estimated_T_out)) / 2
+                for reg in c.region:
+                    reg._init_static_correlated_params(t_avg)
+                rg = c.rodded
+                K = float(rg.coolant_int_params['grid_loss_coeff'])
+                if sp and 'loss_coeff' in sp:
+                    Kx = float(sp['loss_coeff'])
+                else:
+                    cc = rg.corr_constants['grid']
+                    Kx = float(rg.corr['grid'](
+                        rg.coolant_int_params['Re'], cc['solidity'],
+                        cc['corr_coeff']))
+            except (Exception, SystemExit) as ex:  # not a verdict
+                res['probes']['c14.reclone_' + type(ex).__name__] = 1
+                continue
+            res['probes']['c14.reclone_checked'] = 1
+            if abs(K - Kx) > 1e-9 * max(abs(Kx), 1e-300):
+                res['violations'].append(sim.Violation(
+                    'dp.grid_loss_coeff', f'asm{a.id} clone at '
+                    f'{case["twin_factor"]} of the flow',
+                    f'clone of the set-up assembly uses loss coefficient '
+                    f'{K!r}, the correlation at its Reynolds number gives '
+                    f'{Kx!r}', {'grid_loss_coeff', 'reclone'}).to_json())
+                return
         # step-size independence: same world, different tick schedule
         s2 = copy.deepcopy(spec)
         s2['setup'] = dict(s2['setup'])
